@@ -4,7 +4,12 @@ import MtailVerif.Props.C17
 #print axioms MtailVerif.C17.data_delivers_own_lines
 #print axioms MtailVerif.C17.close_delivers_tail_once
 #print axioms MtailVerif.C17.output_closes_after_cancel
-#print axioms MtailVerif.C17.streams_skeletons
-#print axioms MtailVerif.C17.dispatch_skeletons
 #print axioms MtailVerif.C17.no_send_on_closed_lines
 #print axioms MtailVerif.C17.counting_after_accept_is_unsafe
+#print axioms MtailVerif.C17.streams_skeletons
+#print axioms MtailVerif.C17.dispatch_skeletons
+#print axioms MtailVerif.C17.f_logstream_fifostream_skeletons
+#print axioms MtailVerif.C17.f_logstream_socketstream_skeletons
+#print axioms MtailVerif.C17.f_logstream_dgramstream_skeletons
+#print axioms MtailVerif.C17.f_logstream_cancel_skeletons
+#print axioms MtailVerif.C17.f_logstream_logstream_skeletons
